@@ -46,14 +46,28 @@ Record DC := {                 (* x509.DelegatedCredential *)
   dc_alg : scheme;             (* algorithm of the delegation signature *)
   dc_sig : list Z }.
 
+(* one CertificateEntry of the peer's Certificate message *)
+Record Entry := {
+  e_id : Z;                    (* certificate id *)
+  e_cert : list Z;             (* certificate bytes *)
+  e_key : Z;                   (* the public key INSIDE this certificate (key id) *)
+  e_dc : list DC }.            (* DelegatedCredentialCertExtension entries attached to this entry *)
+
 Record CertMsg := {            (* Certificate message as parsed *)
-  cm_chain : list Z;           (* the chain (certificate ids); [] = empty certificate_list *)
-  cm_cert : list Z;            (* end-entity certificate bytes *)
-  cm_key : Z;                  (* end-entity public key (key id) *)
+  cm_entries : list Entry;     (* certificate_list, end-entity first; [] = empty certificate_list *)
   cm_keytype : string;         (* x509List[0].certAlg *)
   cm_curve_hash : option string;   (* curve_name_to_hash_name(publicKey.curve_name) for ECDSA keys *)
-  cm_policy : option Z;        (* _check_certchain_with_settings: alert it sends, None = acceptable (C03/C19) *)
-  cm_dc : list DC }.           (* DelegatedCredentialCertExtension entries of certificate_list[0] *)
+  cm_policy : option Z }.      (* _check_certchain_with_settings: alert it sends, None = acceptable (C03/C19) *)
+
+(* what the code reads: the chain object recorded in the session is the whole list; the public
+   key (cert_chain.getEndEntityPublicKey(), x509List[0]), the certificate handed to
+   DelegatedCredential.verify (certificate.certificate_list[0]) and the credential extension are
+   those of ENTRY 0.  Entries 1.. are never consulted by the flows below. *)
+Definition cm_chain (cm : CertMsg) : list Z := map e_id (cm_entries cm).
+Definition cm_ee (cm : CertMsg) : option Entry := hd_error (cm_entries cm).
+Definition cm_cert (cm : CertMsg) : list Z := match cm_ee cm with Some e => e_cert e | None => [] end.
+Definition cm_key (cm : CertMsg) : Z := match cm_ee cm with Some e => e_key e | None => 0 end.
+Definition cm_dc (cm : CertMsg) : list DC := match cm_ee cm with Some e => e_dc e | None => [] end.
 
 Record Run := {
   r_ver : Z * Z;
@@ -481,8 +495,8 @@ Definition orc_const (answer : bool) : Orc :=
      o_calc_key := fun _ _ _ _ _ _ _ => []; o_pkcs1 := fun d _ => d; o_hash := fun d _ => d |}.
 
 Definition cert0 : CertMsg :=
-  {| cm_chain := [1]; cm_cert := [1]; cm_key := 1; cm_keytype := "rsa"; cm_curve_hash := None;
-     cm_policy := None; cm_dc := [] |}.
+  {| cm_entries := [ {| e_id := 1; e_cert := [1]; e_key := 1; e_dc := [] |} ];
+     cm_keytype := "rsa"; cm_curve_hash := None; cm_policy := None |}.
 
 Definition run0 : Run :=
   {| r_ver := (3, 4); r_kx := 1; r_req_cert := false; r_psk := None; r_cert := Some cert0;
